@@ -2,5 +2,5 @@ From Coq Require Import ZArith NArith.
 From C05 Require Import Model.
 Require Extraction.
 Require Import ExtrOcamlBasic.
-Extraction "model.ml" offenders analyzer_ok rule_ok rule_flow rule_names rule_labels rule_consts rule_switch off_switch
+Extraction "model.ml" offenders analyzer_ok rule_ok rule_flow rule_names rule_labels rule_consts rule_switch off_switch rule_ok_full rule_labels_unique rule_goto_stays_in_defer
   off_flow off_names off_labels off_consts Z.of_nat N.of_nat.
